@@ -1,4 +1,4 @@
-// @anchor crate=abasic-core src=src/interpreter.rs needs=verif_support,verif_paccess
+// @anchor crate=abasic-core src=src/interpreter.rs needs=verif_support,verif_paccess,verif_raccess
 //
 // Session-level helpers (child of interpreter.rs: sees `state`, `input`, `output`).
 #![allow(dead_code)]
@@ -55,8 +55,12 @@ pub(crate) fn immediate(i: &mut Interpreter, toks: Vec<Token>) -> Option<u8> {
     assert!(i.state == InterpreterState::Idle);
     i.program.set_and_goto_immediate_line(vec![]);
     i.program.set_and_goto_immediate_line(toks);
-    let r = i.run_next_statement();
-    let r = i.postprocess_result(r);
+    let mut r = i.run_next_statement();
+    // postprocess_result, step by step (see `stmt`)
+    if let Err(err) = &mut r {
+        i.program.populate_error_location(err);
+        i.return_to_idle_state();
+    }
     let code = match &r {
         Ok(()) => None,
         Err(e) => Some(err_code(&e.error)),
@@ -245,66 +249,64 @@ pub(crate) fn cell(i: &mut Interpreter, name: &str, idx: usize) -> f64 {
 /// Model of the reply/DATA item parser for the reply menu used by the INPUT harnesses
 /// (texts of at most 3 bytes: `d`, `x`, ``, `d,e`, `d:e`, `"x"`), where d,e are ASCII digits and
 /// x an ASCII letter.  Natively (replay) the real parser runs on the same text.
+fn ascii_string(bytes: Vec<u8>) -> String {
+    // ASCII by construction; avoids char::encode_utf8's width branches on symbolic bytes
+    unsafe { String::from_utf8_unchecked(bytes) }
+}
+
+/// The reply class the harness is about to provide (structure: concrete per harness); the model
+/// parser dispatches on it instead of on the (symbolic) characters, so that symex sees one shape.
+pub(crate) static mut REPLY_CLASS: u8 = 0;
+
 pub(crate) fn stub_parse_data_until_colon(
     value: &str,
     _sm: Option<&mut crate::string_manager::StringManager>,
 ) -> (Vec<DataElement>, usize) {
     let b = value.as_bytes();
-    let item = |c: u8| -> DataElement {
-        if c.is_ascii_digit() {
-            DataElement::Number((c - b'0') as f64)
-        } else {
-            let mut s = String::new();
-            s.push(c as char);
-            DataElement::String(std::rc::Rc::new(s))
+    let class = unsafe { REPLY_CLASS };
+    let number = |c: u8| DataElement::Number((c - b'0') as f64);
+    let text = |c: u8| DataElement::String(std::rc::Rc::new(ascii_string(vec![c])));
+    match class {
+        0 => {
+            kani::assume(b.len() == 1 && b[0].is_ascii_digit());
+            (vec![number(b[0])], 1)
         }
-    };
-    if b.len() == 0 {
-        return (vec![DataElement::String(std::rc::Rc::new(String::new()))], 0);
+        1 => {
+            kani::assume(b.len() == 1 && b[0].is_ascii_uppercase());
+            (vec![text(b[0])], 1)
+        }
+        2 => {
+            kani::assume(b.len() == 0);
+            (vec![DataElement::String(std::rc::Rc::new(String::new()))], 0)
+        }
+        3 => {
+            kani::assume(b.len() == 3 && b[1] == b',' && b[0].is_ascii_digit() && b[2].is_ascii_digit());
+            (vec![number(b[0]), number(b[2])], 3)
+        }
+        4 => {
+            kani::assume(b.len() == 3 && b[1] == b':' && b[0].is_ascii_digit());
+            (vec![number(b[0])], 1)
+        }
+        _ => {
+            kani::assume(b.len() == 3 && b[0] == b'"' && b[2] == b'"');
+            (vec![text(b[1])], 3)
+        }
     }
-    if b.len() == 1 {
-        return (vec![item(b[0])], 1);
-    }
-    if b.len() == 3 && b[1] == b',' {
-        return (vec![item(b[0]), item(b[2])], 3);
-    }
-    if b.len() == 3 && b[1] == b':' {
-        return (vec![item(b[0])], 1);
-    }
-    if b.len() == 3 && b[0] == b'"' && b[2] == b'"' {
-        let mut s = String::new();
-        s.push(b[1] as char);
-        return (vec![DataElement::String(std::rc::Rc::new(s))], 3);
-    }
-    // outside the menu: never generated
-    kani::assume(false);
-    (vec![], 0)
 }
 
 /// Reply text for the menu: class 0 `d`, 1 `x`, 2 empty, 3 `d,e`, 4 `d:e`, 5 `"x"`.
 pub(crate) fn reply_text(class: u8, d: u8, e: u8, x: u8) -> String {
-    let mut s = String::new();
-    match class {
-        0 => s.push((b'0' + d) as char),
-        1 => s.push((b'A' + x) as char),
-        2 => {}
-        3 => {
-            s.push((b'0' + d) as char);
-            s.push(',');
-            s.push((b'0' + e) as char);
-        }
-        4 => {
-            s.push((b'0' + d) as char);
-            s.push(':');
-            s.push((b'0' + e) as char);
-        }
-        _ => {
-            s.push('"');
-            s.push((b'A' + x) as char);
-            s.push('"');
-        }
+    unsafe {
+        REPLY_CLASS = class;
     }
-    s
+    match class {
+        0 => ascii_string(vec![b'0' + d]),
+        1 => ascii_string(vec![b'A' + x]),
+        2 => String::new(),
+        3 => ascii_string(vec![b'0' + d, b',', b'0' + e]),
+        4 => ascii_string(vec![b'0' + d, b':', b'0' + e]),
+        _ => ascii_string(vec![b'"', b'A' + x, b'"']),
+    }
 }
 
 pub(crate) fn stub_token_display(_t: &Token, _f: &mut std::fmt::Formatter<'_>) -> std::fmt::Result {
@@ -405,4 +407,25 @@ pub(crate) fn stmt(i: &mut Interpreter) -> Option<(u8, Option<u64>)> {
 pub(crate) fn resume_at(i: &mut Interpreter, line: u64, tok: usize) {
     pa::set_location(&mut i.program, line, tok);
     i.state = InterpreterState::Running;
+}
+
+pub(crate) fn rng_seed(i: &Interpreter) -> u64 {
+    crate::random::verif_raccess::seed_of(&i.rng)
+}
+
+/// An immediate line whose single statement is executed through `stmt` (used where the statement
+/// fails inside expression evaluation: propagating such an error through run_next_statement's `?`
+/// exhausts memory in symex, see `stmt`).
+pub(crate) fn immediate_stmt(i: &mut Interpreter, toks: Vec<Token>) -> Option<u8> {
+    assert!(i.state == InterpreterState::Idle);
+    i.program.set_and_goto_immediate_line(vec![]);
+    i.program.set_and_goto_immediate_line(toks);
+    i.state = InterpreterState::Running;
+    match stmt(i) {
+        None => {
+            i.state = InterpreterState::Idle;
+            None
+        }
+        Some((c, _)) => Some(c),
+    }
 }
